@@ -17,8 +17,14 @@ CONSTANTS
   Queries <- MCQueries
   MaxCount = 12
   Tracks = {0}
-  Acts = {"edit", "move", "toggle", "list", "resize"}
+  Hscrolls = {FALSE}
+  HscrollOffs = {10}
+  KeepRights = {FALSE}
+  Scrollbars <- MCNoScrollbar
+  Borders = {FALSE}
+  Patterns <- MCPatternsNone
+  Acts = {"edit", "move", "toggle", "list", "resize", "vis"}
 INIT Init
 NEXT Next
-INVARIANTS InvRowCount InvWidth InvClaims InvOnePointer InvPointerOnCurrent InvMarkers InvHeaderOutsideList InvRTrim InvCursorVisible
+INVARIANTS InvHidden InvVisAlgebra InvRowCount InvWidth InvClaims InvOnePointer InvPointerOnCurrent InvMarkers InvHeaderOutsideList InvRTrim InvCursorVisible
 CHECK_DEADLOCK FALSE
